@@ -128,6 +128,12 @@ Expected(op, D) ==
          {RDoc(IF op.cons = "object" THEN O(<< <<"n", d>> >>) ELSE A(<<d>>))}
     [] op.fn = "reparse" ->  \* a document that holds another document as TEXT: PARSE_JSON(v:payload::varchar):<key>::<type>
          {IF op.key = "id" THEN RNum(7) ELSE RTxt("it is")}
+    [] op.fn = "flat2" ->    \* two LATERAL FLATTENs in one select, both VALUEs converted to text: every pair, quotes dropped on both sides
+         {RDocs(<<S("x|s"), S("y|s")>>)}
+    [] op.fn = "flattrim" -> \* TRIM / LTRIM / RTRIM directly over a FLATTEN value holding a string
+         {RDocs(<<S(IF op.which = "trim" THEN "red" ELSE IF op.which = "ltrim" THEN "red " ELSE "  red")>>)}
+    [] op.fn = "digitkey" -> \* a quoted all-digit key in brackets is a KEY: the member of an object, nothing of an array
+         {IF op.on = "object" THEN RDoc(S("yr")) ELSE RNull}
     [] op.fn = "tryparse" -> IF op.good THEN {RDoc(D3)} ELSE {RNull}
 
 Steps(st, op, D) == {R(st, o) : o \in Expected(op, D)}
@@ -169,6 +175,8 @@ Cases ==
                    /\ ~(o.cons = "array" /\ o.cast = "none")} : j \in {1, 3, 6}}
   \cup [fn : {"reparse"}, key : {"id", "t"}, src : {"col", "lit"}, via : {"parse_json", "try_parse_json"}]
   \cup [fn : {"tryparse"}, good : BOOLEAN]
+  \cup [fn : {"flat2"}, cast : {"varchar", "string"}] \cup [fn : {"flattrim"}, which : {"trim", "ltrim", "rtrim"}]
+  \cup [fn : {"digitkey"}, on : {"object", "array"}, key : {"2024", "1"}, src : {"col", "lit"}]
 Ops(st) == Cases
 
 StepOk(st, op, r) ==
@@ -178,6 +186,6 @@ StepOk(st, op, r) ==
   /\ (op.fn = "get" /\ op.cast = "varchar" /\ GetPath(Docs[op.doc], op.path).k = "str" => r.obs.res = "txt")
   /\ (op.fn = "get" /\ IsNullish(GetPath(Docs[op.doc], op.path)) => r.obs.res = "null")
   /\ (op.fn = "arraysize" /\ GetPath(Docs[op.doc], op.path).k = "arr" => r.obs.res = "num")
-  /\ (op.fn \in {"oper", "flatten", "arrcons", "objcons", "consof", "reparse", "split"} => r.obs.res # "err")
+  /\ (op.fn \in {"oper", "flatten", "arrcons", "objcons", "consof", "reparse", "split", "flat2", "flattrim", "digitkey"} => r.obs.res # "err")
   /\ (op.fn = "objcons" /\ ~op.keep => \A j \in 1..Len(r.obs.doc.v) : r.obs.doc.v[j][2].k # "null")
 =============================================================================
